@@ -128,7 +128,7 @@ func c23Oracle(in string) eng.Res {
 	src := s.source()
 	diagram, _, err := layoutD2(src)
 	if err != nil {
-		return eng.Bad("compile-or-layout-error:"+u.StripDigits(err.Error()), err.Error()+"\n"+src)
+		return eng.Bad(errClass(err), err.Error()+"\n"+src)
 	}
 	prefix := ""
 	if s.wrap == "box" {
